@@ -179,7 +179,7 @@ class EvalMixin:
             k = v.t.kind
             if k == "ref":
                 cls = v.t.cls
-                ft = self.field_T(cls, name) if cls else None
+                ft = self.field_T(cls, name) if cls else self.field_T_any(name)
                 if ft is not None:
                     return self.read_field(st, v.e, name, ft)
                 if name == "get" and (self.classes.get(cls) or {}).get("dictlike"):
